@@ -14,7 +14,7 @@ EXPLANATION = ('Theorems about IterationStamp (translated from src/cycle.rs on e
                'stated with the literal 200 so that an edit of the constant breaks the proof); after the panic nothing poisoned survives a '
                'new revision (`c15_poison_then_ok`). Tied to salsa by running the real IterationStamp on all 65536 values through the hook, and '
                'by generated non-monotone (oscillating / increasing) cyclic programs: the oracle checks that no WillIterateCycle event '
-               'announces an iteration above 200, that the request ends in a value or the bounded panic, and that later revisions recover.')
+               'announces an iteration above 200, that the request ends in a value or the bounded panic, and that later revisions recover. The revision-aware model `CycleRev` is compared byte for byte with salsa (iteration events included); `c15rev_iterations_bounded`: no WillIterateCycle event ever carries an iteration above 200, for every program (gates included) and state.')
 ASSUMPTIONS = ['for non-monotone programs the value (if any) depends on evaluation order; only the bound and recovery are checked there',
                'stamp_none needs iteration < 255 (increment 255 wraps into the cancellation byte; unreachable because iteration <= 200)']
 
